@@ -40,30 +40,30 @@ Definition deframe_cur := deframe_on None.
 Definition deframe_pinned := deframe false UdpDeframeBuf UdpRefillBelow UdpMaxRecord UdpWriteBatch None.
 
 Lemma c12_deframe_any_cut :
-  forall (bw : option N) (ds : list dgram) (cut : nat) (cuts : list nat) (e : N) (wd : bool) (fuel : nat),
+  forall (bw : option N) (ds : list dgram) (cut : nat) (cuts : list nat) (e : N) (wd : bool) (emp : list bool) (fuel : nat),
   local_path bw ->
   Forall (valid_dgram UdpMaxRecord) ds ->
-  (length (firstn cut (encode_all ds)) < fuel)%nat ->
-  exists w, deframe_on bw fuel (ust0 (firstn cut (encode_all ds)) cuts e wd None)
+  (length (firstn cut (encode_all ds)) + length emp < fuel)%nat ->
+  exists w, deframe_on bw fuel (ust0e (firstn cut (encode_all ds)) cuts e wd emp None)
             = DDone w (final_err 0 e (tail_after cut ds)) /\
             w_log w = complete_before cut ds /\ w_bytes w = sum_len (complete_before cut ds).
 Proof.
-  intros bw ds cut cuts e wd fuel Hbw.
+  intros bw ds cut cuts e wd emp fuel Hbw.
   exact (deframe_any_cut UdpDeframeBuf UdpRefillBelow UdpMaxRecord UdpWriteBatch bw (local_path_cap bw Hbw)
-           refill_above_max_record refill_below_buffer write_batch_positive max_record_fits_u16 ds cut cuts e wd fuel).
+           refill_above_max_record refill_below_buffer write_batch_positive max_record_fits_u16 ds cut cuts e wd emp fuel).
 Qed.
 
 Lemma c12_udp_roundtrip :
-  forall (bw : option N) (evs : list uev) (cuts : list nat) (wd : bool) (fuel : nat),
+  forall (bw : option N) (evs : list uev) (cuts : list nat) (wd : bool) (emp : list bool) (fuel : nat),
   local_path bw ->
   Forall (valid_dgram UdpMaxRecord) (ev_dgrams evs) ->
-  (length (concat (e_out (encode_events UdpBatchBufSize evs))) < fuel)%nat ->
-  exists w, deframe_on bw fuel (ust0 (concat (e_out (encode_events UdpBatchBufSize evs))) cuts 0 wd None) = DDone w 0 /\
+  (length (concat (e_out (encode_events UdpBatchBufSize evs))) + length emp < fuel)%nat ->
+  exists w, deframe_on bw fuel (ust0e (concat (e_out (encode_events UdpBatchBufSize evs))) cuts 0 wd emp None) = DDone w 0 /\
             w_log w = ev_dgrams evs /\ w_bytes w = e_sent (encode_events UdpBatchBufSize evs).
 Proof.
-  intros bw evs cuts wd fuel Hbw.
+  intros bw evs cuts wd emp fuel Hbw.
   exact (udp_roundtrip UdpDeframeBuf UdpRefillBelow UdpMaxRecord UdpWriteBatch UdpBatchBufSize bw (local_path_cap bw Hbw)
-           refill_above_max_record refill_below_buffer write_batch_positive max_record_fits_u16 evs cuts wd fuel).
+           refill_above_max_record refill_below_buffer write_batch_positive max_record_fits_u16 evs cuts wd emp fuel).
 Qed.
 
 Lemma c12_encoder_stream : forall evs,
@@ -74,17 +74,17 @@ Proof. exact (encoder_stream UdpBatchBufSize). Qed.
 
 (* for ANY byte stream (malformed ones included), any chunk oracle and any end kind the repaired loop
    returns within |stream|+1 iterations and has written exactly the complete records *)
-Lemma c12_deframe_total : forall (bw : option N) (s : list byte) (cuts : list nat) (e : N) (wd : bool) (fuel : nat),
+Lemma c12_deframe_total : forall (bw : option N) (s : list byte) (cuts : list nat) (e : N) (wd : bool) (emp : list bool) (fuel : nat),
   local_path bw ->
-  (length s < fuel)%nat ->
-  exists w err, deframe_on bw fuel (ust0 s cuts e wd None) = DDone w err /\
+  (length s + length emp < fuel)%nat ->
+  exists w err, deframe_on bw fuel (ust0e s cuts e wd emp None) = DDone w err /\
                 w_log w = fst (fst (split_all UdpMaxRecord s)).
 Proof.
-  intros bw s cuts e wd fuel Hbw Hf.
+  intros bw s cuts e wd emp fuel Hbw Hf.
   assert (H0 : lenN (@nil byte) < UdpRefillBelow) by (vm_compute; reflexivity).
   pose proof (deframe_fixed_spec true _ _ _ _ bw refill_above_max_record refill_below_buffer write_batch_positive
-                (local_path_cap bw Hbw) eq_refl fuel (ust0 s cuts e wd None) eq_refl eq_refl H0 Hf) as H.
-  cbn [ust0 s_buf s_t t_rd rest s_w s_err endk app] in H.
+                (local_path_cap bw Hbw) eq_refl fuel (ust0e s cuts e wd emp None) eq_refl eq_refl H0 Hf) as H.
+  cbn [ust0e s_buf s_t t_rd rest s_w s_err endk app] in H.
   destruct (split_all UdpMaxRecord s) as [[recs tail] bad].
   destruct H as (e0 & Hd & _). eexists; eexists. split; [exact Hd|].
   rewrite wadd_log. reflexivity.
@@ -97,7 +97,7 @@ Proof.
   intros [|f]; [reflexivity|]. unfold deframe_pinned. cbn [deframe].
   replace (outer_step false UdpDeframeBuf UdpRefillBelow UdpMaxRecord UdpWriteBatch None (ust0 [0; 5; 97; 98] [] 0 false None))
     with (OCont {| s_buf := [0; 5; 97; 98]; s_pend := []; s_w := w0 None;
-                   s_t := {| t_rd := {| rest := []; cuts := []; endk := 0; carry := false |}; t_wd := false |}; s_err := 0 |})
+                   s_t := {| t_rd := {| rest := []; cuts := []; endk := 0; carry := false |}; t_wd := false; t_empty := [] |}; s_err := 0 |})
     by (vm_compute; reflexivity).
   apply (pinned_spins_on_partial_record false _ _ _ _ None refill_above_max_record refill_below_buffer write_batch_positive
            ltac:(intros cap H; discriminate H) eq_refl);
@@ -178,9 +178,10 @@ Proof. vm_compute. split; reflexivity. Qed.
 (* ---- Bidirectional, instantiated with constants.CopyBufferSize ---- *)
 (* endpoint A wrapped as cfgA, endpoint B as cfgB; both accept every write *)
 Definition tcp_run_w (cfgA cfgB : wcfg) (sA sB : list byte) (cA cB : list nat) (eA eB : N) (wA wB : bool)
+                     (mA mB : list bool)     (* the (0, nil) reads endpoint A / B interleaves with its chunks *)
                      (sched : list nat) :=
   run tsh (nat * tpc) (tstep CopyBufferSize)
-      (tcp_init (dirw sA cA eA wA None false cfgB) (dirw sB cB eB wB None false cfgA)) sched.
+      (tcp_init (dirwe sA cA eA wA mA None false cfgB) (dirwe sB cB eB wB mB None false cfgA)) sched.
 
 (* the endpoint configurations the harness builds with the real constructors (harness/cmd/c12: `wrap`) *)
 Definition wrap_cfg (k : N) : wcfg :=
@@ -194,21 +195,21 @@ Definition wrap_cfg (k : N) : wcfg :=
   | _ => {| ep_kind := 2; ep_cwfunc := false; ep_writer_cw := false; ep_closefunc := false |} (* closeFunc == nil *)
   end.
 
-Lemma c12_tcp_inv cfgA cfgB sA sB cA cB eA eB wA wB sched :
-  Inv sA sB cfgA cfgB (tcp_run_w cfgA cfgB sA sB cA cB eA eB wA wB sched).
+Lemma c12_tcp_inv cfgA cfgB sA sB cA cB eA eB wA wB mA mB sched :
+  Inv sA sB cfgA cfgB (tcp_run_w cfgA cfgB sA sB cA cB eA eB wA wB mA mB sched).
 Proof.
   unfold tcp_run_w. apply (tcp_all_schedules CopyBufferSize copy_buffer_positive sA sB cfgA cfgB);
-    unfold no_write_fault, dirw; cbn; auto.
+    unfold no_write_fault, dirwe; cbn; auto.
 Qed.
 
-Lemma c12_tcp_prefix cfgA cfgB sA sB cA cB eA eB wA wB sched :
-  let s := tcp_run_w cfgA cfgB sA sB cA cB eA eB wA wB sched in
+Lemma c12_tcp_prefix cfgA cfgB sA sB cA cB eA eB wA wB mA mB sched :
+  let s := tcp_run_w cfgA cfgB sA sB cA cB eA eB wA wB mA mB sched in
   (exists x, sA = d_out (sh_d0 (fst s)) ++ x) /\ (exists y, sB = d_out (sh_d1 (fst s)) ++ y) /\
   sh_io_after_close (fst s) = 0.
-Proof. exact (Inv_prefix sA sB cfgA cfgB _ (c12_tcp_inv cfgA cfgB sA sB cA cB eA eB wA wB sched)). Qed.
+Proof. exact (Inv_prefix sA sB cfgA cfgB _ (c12_tcp_inv cfgA cfgB sA sB cA cB eA eB wA wB mA mB sched)). Qed.
 
-Lemma c12_tcp_complete cfgA cfgB sA sB cA cB eA eB wA wB sched :
-  let s := tcp_run_w cfgA cfgB sA sB cA cB eA eB wA wB sched in
+Lemma c12_tcp_complete cfgA cfgB sA sB cA cB eA eB wA wB mA mB sched :
+  let s := tcp_run_w cfgA cfgB sA sB cA cB eA eB wA wB mA mB sched in
   sh_ret (fst s) = true ->
   d_out (sh_d0 (fst s)) = sA /\ d_out (sh_d1 (fst s)) = sB /\
   d_bytes (sh_d0 (fst s)) = lenN sA /\ d_bytes (sh_d1 (fst s)) = lenN sB /\
@@ -217,11 +218,11 @@ Lemma c12_tcp_complete cfgA cfgB sA sB cA cB eA eB wA wB sched :
   sh_ncl_a (fst s) = ncl cfgA /\ sh_ncl_b (fst s) = ncl cfgB /\ sh_io_after_close (fst s) = 0.
 Proof.
   exact (Inv_returned CopyBufferSize copy_buffer_positive sA sB cfgA cfgB _
-           (c12_tcp_inv cfgA cfgB sA sB cA cB eA eB wA wB sched)).
+           (c12_tcp_inv cfgA cfgB sA sB cA cB eA eB wA wB mA mB sched)).
 Qed.
 
-Lemma c12_tcp_half_close cfgA cfgB sA sB cA cB eA eB wA wB sched p0 p1 pm :
-  let s := tcp_run_w cfgA cfgB sA sB cA cB eA eB wA wB sched in
+Lemma c12_tcp_half_close cfgA cfgB sA sB cA cB eA eB wA wB mA mB sched p0 p1 pm :
+  let s := tcp_run_w cfgA cfgB sA sB cA cB eA eB wA wB mA mB sched in
   snd s = [(0%nat, p0); (1%nat, p1); (2%nat, pm)] -> (p0 <> PDone \/ p1 <> PDone) ->
   sh_closed_a (fst s) = false /\ sh_closed_b (fst s) = false /\
   sh_ncl_a (fst s) = 0 /\ sh_ncl_b (fst s) = 0 /\
@@ -229,7 +230,7 @@ Lemma c12_tcp_half_close cfgA cfgB sA sB cA cB eA eB wA wB sched p0 p1 pm :
   (p1 = PDone -> d_cw (sh_d1 (fst s)) = ncw cfgA /\ d_cwf (sh_d1 (fst s)) = ncwf cfgA).
 Proof.
   exact (Inv_half_close CopyBufferSize copy_buffer_positive sA sB cfgA cfgB _ p0 p1 pm
-           (c12_tcp_inv cfgA cfgB sA sB cA cB eA eB wA wB sched)).
+           (c12_tcp_inv cfgA cfgB sA sB cA cB eA eB wA wB mA mB sched)).
 Qed.
 
 (* the dispatch table of the seven configurations: (CloseWrite reaching the endpoint, closeWriteFunc calls,
@@ -244,8 +245,8 @@ Proof. vm_compute. reflexivity. Qed.
    and answers with 2 bytes only AFTER A->B has finished and half-closed it; a fair schedule returns with
    everything delivered and B closed exactly once, at the end *)
 Lemma c12_tcp_returns_example :
-  let s := tcp_run_w (wrap_cfg 0) (wrap_cfg 2) [1; 2; 3] [4; 5] [1%nat; 1%nat] [] 0 1 false true
-             ([0; 0; 0; 0; 0; 0; 2; 1; 2; 1; 1; 1; 2; 2; 2; 2]%nat) in
+  let s := tcp_run_w (wrap_cfg 0) (wrap_cfg 2) [1; 2; 3] [4; 5] [1%nat; 1%nat] [] 0 1 false true [false; true; true] [true]
+             ([0; 0; 0; 0; 0; 0; 0; 0; 2; 1; 2; 1; 1; 1; 1; 2; 2; 2; 2]%nat) in
   sh_ret (fst s) = true /\ d_out (sh_d0 (fst s)) = [1; 2; 3] /\ d_out (sh_d1 (fst s)) = [4; 5] /\
   d_err (sh_d0 (fst s)) = 0 /\ d_err (sh_d1 (fst s)) = 1 /\
   d_cw (sh_d0 (fst s)) = 0 /\ sh_ncl_b (fst s) = 1.
